@@ -652,7 +652,7 @@ func run(c *vf.Ctx) {
 	c.Assume("Ed25519 and SHA-256/BLAKE2b are trusted (standard library / x/crypto); signatures are treated symbolically by the reference: a signature symbol is valid for a key iff crypto/ed25519.Verify says so (table computed once per run)")
 	c.Assume("keys, preimages, signature hash and lock values are derived from VERIF_SEED; the explored space does not depend on the seed (data independence)")
 	c.Assume("unlock conditions that list an entropy key which never has to be examined are outside the statement: evaluated, counted as unspecified, not asserted")
-	c.Assume("sub-second median timestamps are not explored; ed25519 unlock keys of a length other than 32 are explored only as the empty key and a 16-byte prefix (judged as the zero-padded key)")
+	c.Assume("sub-second median timestamps are explored in the lock sweep only (half seconds); ed25519 unlock keys of a length other than 32 are explored only as the empty key and a 16-byte prefix (judged as the zero-padded key)")
 	c.RequireFeature("accepting", "rejecting", "unspecified", "address_evaluations", "needed_child_made_opaque", "witness_corruptions",
 		"uc_as_child_rejected", "surplus_witness_rejected", "limit_cases", "standard_address_cases")
 }
